@@ -76,9 +76,24 @@ int32_t psEccParsePrivFile(psPool_t *pool, const char *fileName,
             psFree(DERout, pool);
             return rc;
         }
+        if (pubkey.type != PS_ECC)
+        {
+            /* A PKCS#8 file can hold a key of any algorithm; only an EC
+               key has a valid pubkey.key.ecc to copy from. */
+            psTraceCrypto("psEccParsePrivFile: not an EC key\n");
+            psClearPubKey(&pubkey);
+            psFree(DERout, pool);
+            return PS_PARSE_FAIL;
+        }
         psEccInitKey(pool, key, key->curve);
         rc = psEccCopyKey(key, &pubkey.key.ecc);
         psClearPubKey(&pubkey);
+        if (rc < 0)
+        {
+            psEccClearKey(key);
+            psFree(DERout, pool);
+            return rc;
+        }
 #  else
         psFree(DERout, pool);
         return rc;
